@@ -67,8 +67,10 @@ pub fn conc_profile() -> Profile {
         MethodId::A2,
         MethodId::A3,
         MethodId::B0,
-        MethodId::B1,
     ];
+    // B1 (default body calling b0) and a2(_, 2) (real function calling a1) are left out: a nested call made by
+    // user code is a separate operation with its own linearization point, which this history format (one record
+    // per top-level call) cannot express
     p.n_methods = (1, 2);
     p.pats_per_method = (1, 3);
     p.pct_ordered = 45;
@@ -124,6 +126,11 @@ pub fn gen_conc_case(rng: &mut Rng, max_threads: usize, max_calls: usize) -> Con
                     } else {
                         m.args_from_code(rng.below(m.domain_size()))
                     }
+                };
+                let args = if m == MethodId::A2 && args[1] == 2 {
+                    vec![args[0], 1]
+                } else {
+                    args
                 };
                 calls.push((m, args));
             }
